@@ -56,9 +56,12 @@ Qed.
 
 Lemma gen_violates f : violates_constraint f = violates f.
 Proof.
-  unfold violates_constraint, violates. rewrite gen_valid. destruct (cv f) as [l|]; cbn [is_none sum_optbl negb].
-  - rewrite count_pos_existsb. reflexivity.
-  - reflexivity.
+  (* robust to the shape of the source (a chained `not ... and ... and ...`, early returns, nested ifs): decide by case
+     analysis on validity and on the presence of a violation list *)
+  unfold violates_constraint, violates. rewrite ?gen_valid.
+  destruct (valid f) eqn:Hv; destruct (cv f) as [l|]; cbn [is_none sum_optbl negb andb];
+    rewrite ?count_pos_existsb; rewrite ?Hv; cbn [negb andb]; try reflexivity;
+    destruct (existsb (fun b : bool => b) l); reflexivity.
 Qed.
 
 Lemma gen_c_delValues f : ConstrainedFitness_delValues f = c_del_values f.
